@@ -35,7 +35,7 @@ Depth == TLCGet("level") <= MaxDepth
 HApply(force) ==
     /\ last' = [a |-> "apply", arg |-> <<force>>, expected |-> Expected,
                 required |-> Required]
-    /\ UNCHANGED <<inst, ranges, polys, pver, pinv, removeInvalid, enable,
+    /\ UNCHANGED <<inst, extra, ranges, polys, pver, pinv, removeInvalid, enable,
                    limit, manual, memo>>
 
 \* (the implementation-level variables are unused in history runs and h is
